@@ -250,7 +250,13 @@ def check_c16(sc, an):
     # 2. state intact: the nodes that run a user function, with the failing element
     #    withdrawn at the node whose function raised.  (What a stateful node *upstream*
     #    of the failure does with the element is not fixed by the statement.)
-    for v in an.check_sync_nodes(only_ops=('map', 'starmap', 'filter', 'accumulate')) + an.check_sinks():
+    #    ... and the nodes that hand on exactly one value per completed input and settle their own state before
+    #    they hand it on (zip, combine_latest, the windows and partitions, unique, union): what they offer their
+    #    consumers after a failure below them is what their inputs prescribe - in particular not the failed value
+    #    a second time.  (slice counts after the hand-over, flatten and zip_latest hand on several values per
+    #    input and stop in the middle: what those do around a failure is not fixed by the statement.)
+    for v in an.check_sync_nodes(only_ops=('map', 'starmap', 'filter', 'accumulate', 'zip', 'combine_latest', 'sliding_window',
+                                           'partition', 'partition_unique', 'unique', 'union')) + an.check_sinks():
         if v.prop == 'C01':
             V.append(Violation('C16', 'C16.state_changed', v.seq, v.detail, **v.info))
             return V
